@@ -31,7 +31,20 @@ def main():
         signal.alarm(10)
         try:
             e_name, _, e_src = entry.partition(":")
-            out = impl.run_par(e_name, False, e_src or "seek", data)
+            if e_name == "rflat":
+                import rimpl
+                out = rimpl.run_par_flat(False, e_src or "seek", data)
+                out = f"n={out.count(' ')} " + out.rsplit(" ", 1)[-1]
+            elif e_name == "rgrouped":
+                import rimpl
+                sinks, err = rimpl.run_par_grouped(False, e_src or "seek", data)
+                out = f"n={sum(map(len, sinks))} " + ("end" if err is None else "!" + err)
+            elif e_name == "rgraph":
+                import rimpl
+                st, err = rimpl.run_par_graph(e_src or "seek", data)
+                out = f"n={len(rimpl.store_quads(st)) if st is not None else 0} " + ("end" if err is None else "!" + err)
+            else:
+                out = impl.run_par(e_name, False, e_src or "seek", data)
         except Timeout:
             out = "HANG"
             hangs += 1
